@@ -601,9 +601,9 @@ class TrenchColumn:
             print('No trench found intersecting waveguides with trench area.\n')
             return None
 
-        # a single surviving block is a Polygon, several are a MultiPolygon
+        # a single surviving block is a Polygon, several are a MultiPolygon; number them by their lowest y
         blocks = getattr(trench_blocks, 'geoms', [trench_blocks])
-        for block in listcast(sorted(blocks, key=Trench)):
+        for block in sorted(blocks, key=lambda b: b.bounds[1]):
             # buffer to round corners
             block = block.buffer(self.round_corner, resolution=256, cap_style=1)
             # simplify the shape to avoid path too much dense of points
